@@ -121,6 +121,8 @@ type RPC struct {
 	KindMismatch bool   `json:"kind_mismatch,omitempty"` // C12: registered with the other call shape
 	Nested    bool     `json:"nested,omitempty"`     // C10: started from inside another handler, not by its own client actor
 	RawClient bool     `json:"raw_client,omitempty"` // the client is the raw HTTP peer
+	DynC      bool     `json:"dyn_client,omitempty"` // the client uses dynamic messages (what it sends and what it receives into)
+	DynH      bool     `json:"dyn_handler,omitempty"` // the handler uses dynamic messages
 	ReqSpec   *MsgSpec `json:"req_spec,omitempty"`   // message encoded in a raw request body
 }
 
